@@ -126,6 +126,7 @@ static void c01_run(int tier, long cfg)
   vk_cfg.sched_on = 1;
   vk_cfg.sched_bound = 2;
   vk_cfg.vlimit = 32;
+  vk_cfg.hello_lite = 1;
   if (tier || cfg < na) {
     vk_cfg.faults_on = 1;
     vk_cfg.fault_bound = 1;
